@@ -133,10 +133,11 @@ PROPS["C11"] = {
 PROPS["C16"] = {
     "props": ["OsmVerif.Props.C16"],
     "gens": [],
-    "required_theorems": [],
+    "required_theorems": ["join_partitions_input", "join_preserves_edges", "grow_complete", "hole_assigned", "hole_without_outer",
+                          "coords_source_independent", "ring_orientation", "orientation_annotation"],
     "technique": "Lean 4 theorems about a hand-written executable model of mputil.Join/Ring and osmgeojson.buildPolygon over lattice points (ghost field for the untrimmed oriented line); tied by a differential line protocol through osmgeojson.Convert and by a ground-truth ring oracle",
-    "level_text": "TODO",
-    "level_note": "TODO",
+    "level_text": "Machine-checked proof, for every list of member lines (any number, size, order, direction), that the model of mputil.Join uses every input segment in exactly one output group (possibly reversed, the reversed flag recording it), glues pieces only at shared end points so that the edges of each output line string are exactly the edges of its members' full lines (nothing lost, duplicated or invented), and never stops growing a group for lack of fuel (termination); that a closed group with non-zero area is returned with the requested winding (outers CCW, inners CW) when members carry no annotation; that each hole is attached to the first containing outer and dropped otherwise; that way-node coordinates and node-object coordinates give the same line; and that annotation writes to each member the direction in which it runs around the joined ring. PARTIAL (join_recovers_rings): that cutting vertex-disjoint simple rings always yields exactly those rings again is not proved in Lean; it is checked against ground truth for all cut/reverse choices of a rectangle with a hole and ~3000 random multi-ring instances per run, both coordinate sources, with and without annotations.",
+    "level_note": "Trusted: Lean kernel; correspondence harness (model vs osmgeojson.Convert and annotate.Relations, plus a ground-truth ring oracle); float arithmetic (shoelace area, ray casting in polygonContains) is exact on the integer lattice used and modelled with exact integer arithmetic; orb.Ring.Orientation/Reverse/Closed modelled by hand.",
     "design_ref": "DESIGN.md §5 C16/C17",
     "trusted_base": ["models Model/Geo.lean, Model/Convert.lean are hand-written; tie = differential stream through osmgeojson.Convert"],
     "assumptions": ["lattice (integer degree) coordinates so that float arithmetic is exact", "no vertex at (0,0)"],
@@ -144,10 +145,11 @@ PROPS["C16"] = {
 PROPS["C17"] = {
     "props": ["OsmVerif.Props.C17"],
     "gens": [],
-    "required_theorems": [],
+    "required_theorems": ["one_feature_per_element", "node_feature_iff", "node_feature_content", "way_feature_geometry", "toRing_closed",
+                          "reorientOuter_ccw", "route_preserves_segments", "node_options_only_subtract", "way_options_only_subtract"],
     "technique": "Lean 4 theorems about a hand-written executable model of osmgeojson.Convert (relation, way and node passes, options); tied by a differential line protocol and an independent element-to-feature oracle",
-    "level_text": "TODO",
-    "level_note": "TODO",
+    "level_text": "Machine-checked proof about the model of osmgeojson.Convert: at most one feature per input element (relations, ways, nodes); a node becomes a point feature exactly when it is located and is not a way vertex, or has an interesting tag, or is a relation member, carrying its id, location and tags; a way becomes a line over its resolvable node coordinates in order, or for area ways a closed counter-clockwise polygon; a route's joined geometry uses every member line once and preserves every edge; NoID/NoMeta/NoRelationMembership change nothing on node and way features but the id string, the meta object and the relations list. Relation features under the options and IncludeInvalidPolygons, determinism and input immutability are covered by the differential stream (model vs real Convert under all 16 option sets) and the element->feature oracle, not by a theorem.",
+    "level_note": "Trusted: Lean kernel; correspondence harness; Way.Polygon is the C18 model; geojson property maps observed through type assertions/JSON; float coordinates exact on the lattice.",
     "design_ref": "DESIGN.md §5 C16/C17",
     "trusted_base": ["models Model/Geo.lean, Model/Convert.lean are hand-written; tie = differential stream through osmgeojson.Convert"],
     "assumptions": ["lattice coordinates", "distinct element ids per kind"],
